@@ -130,6 +130,35 @@ class LTLExplainer(LtlAstVisitor):
 
         self.visit(element.children[0], [op_intervals, None])
 
+    def visitNegate(self, element, args):
+        intervals = args[0]
+        flag = args[1]
+        op_signal = self.spec.results[element.children[0]]
+        op_intervals = explain_unary(op_signal, intervals)
+        self.explanations[element.name] = intervals
+
+        self.visit(element.children[0], [op_intervals, None])
+
+    def visitLn(self, element, args):
+        intervals = args[0]
+        flag = args[1]
+        op_signal = self.spec.results[element.children[0]]
+        op_intervals = explain_unary(op_signal, intervals)
+        self.explanations[element.name] = intervals
+
+        self.visit(element.children[0], [op_intervals, None])
+
+    def visitLog(self, element, args):
+        intervals = args[0]
+        flag = args[1]
+        op1_signal = self.spec.results[element.children[0]]
+        op2_signal = self.spec.results[element.children[1]]
+        op1_intervals, op2_intervals = explain_binary(op1_signal, op2_signal, intervals)
+        self.explanations[element.name] = intervals
+
+        self.visit(element.children[0], [op1_intervals, None])
+        self.visit(element.children[1], [op2_intervals, None])
+
     def visitPow(self, element, args):
         intervals = args[0]
         flag = args[1]
